@@ -28,6 +28,7 @@ EXPLANATION = (
     "R-C18-3: TS = TN^(1/(-slope)) in the analysers agrees in normal form with the Woehler accessor's TS = TN^(1/k_1) for "
     "k_1 = -slope, and k_1 is reported as -slope. Not decided: scale equivariance through the optimisers, exact recovery of "
     "synthetic curves, likelihood ordering.")
+EXPLANATION += (' R-C18-4: values that carry the unit of the load (load column, finite/infinite transition, SD, ...; interprocedural typing) meet numeric constants only as comparisons with zero - a non-zero threshold or clamp makes the result depend on the load unit. R-C18-5: no analysis function writes into a caller-provided argument and no mutable default argument is ever written (effect analysis through closures).')
 ASSUMPTIONS = [
     "scipy.stats.linregress and sums are invariant under a common permutation of their paired arguments",
     "pandas groupby sorts group keys by default; np.unique and the 1-D set operations return sorted arrays",
